@@ -25,7 +25,7 @@ type Gen struct {
 
 var plainKeyPool = []string{"a", "b", "c", "k1", "name", "x-y", "Default", "DEFAULT", "defaults", "D1",
 	"D1aa", "d4a", "D9z", "a b", "1", "true", "null", "list", "cfg", "timeout", "é", "key.with.dot",
-	"D1a", "D1b", "d1c", "D2a", "D2e", "d2b", "D3a", "D3c", "d3b", "~", "_"}
+	"D1a", "D1b", "d1c", "D2a", "D2e", "d2b", "D3a", "D3c", "d3b", "~", "_", "prod", "Dev", "only4", "only5", "stage"}
 
 var stringPool = []string{"", "x", "hello world", "default", "D1a", "D2b", "true", "123", "~", "a.b", "null",
 	"3m", "é!", "line1\nline2", " lead", "trail ", "{}", "[]", "k: v", "- item", "#c", "'q'", "\"dq\""}
@@ -88,14 +88,68 @@ func (g *Gen) PlainScalar() Tree {
 
 // Spell returns a case variant of an enum value name.
 func Spell(r *rand.Rand, name string) string {
-	switch r.IntN(6) {
+	switch r.IntN(7) {
 	case 0:
 		return strings.ToLower(name)
 	case 1:
 		return strings.ToUpper(name)
+	case 2: // every letter in a case of its own: the enums parse their names case-insensitively
+		b := []byte(name)
+		for i, c := range b {
+			if r.IntN(2) == 0 {
+				b[i] = []byte(strings.ToUpper(string(c)))[0]
+			} else {
+				b[i] = []byte(strings.ToLower(string(c)))[0]
+			}
+		}
+		return string(b)
 	default:
 		return name
 	}
+}
+
+// Spine wraps a node into a chain of 33..48 nested containers (plain maps, lists, switches of
+// alternating dimensions with and without default, maps with non-string keys): documents far
+// deeper than the generator's ordinary depth of 7 and than any fixed recursion budget.
+func (g *Gen) Spine(doc, exp Tree, ok bool) (Tree, Tree, bool) {
+	n := 33 + g.R.IntN(16)
+	last := 0
+	for i := 0; i < n; i++ {
+		switch g.R.IntN(4) {
+		case 0:
+			doc, exp = List(doc), List(exp)
+		case 1:
+			reg := g.Regs[g.R.IntN(len(g.Regs))]
+			if reg.Enum == last || len(g.Regs) == 0 {
+				doc, exp = M("k1", doc), M("k1", exp)
+				last = 0
+				continue
+			}
+			// a switch that selects the chain, next to an entry that must not matter
+			name := Enums[reg.Enum-1].Names[g.Sel[reg.Enum]]
+			eff := reg.Enum
+			for _, d := range g.Regs { // the first registered dimension that parses the key owns the switch
+				if _, p := Enums[d.Enum-1].Parse(name); p {
+					eff = d.Enum
+					break
+				}
+			}
+			if v, _ := Enums[eff-1].Parse(name); eff != reg.Enum && v != g.Sel[eff] {
+				doc, exp = M("k1", doc), M("k1", exp)
+				last = 0
+				continue
+			}
+			doc = M(Spell(g.R, name), doc, "default", Str("not this one"))
+			last = eff
+			continue
+		case 2:
+			doc, exp = XMap(Entry{K: "i:1", V: doc}), XMap(Entry{K: "i:1", V: exp})
+		default:
+			doc, exp = M("a", doc, "b", Str("sibling")), M("a", exp, "b", Str("sibling"))
+		}
+		last = 0
+	}
+	return M("spine", doc), M("spine", exp), ok
 }
 
 // Node returns a document and its expected resolution (ok=false: loading must fail here).
@@ -200,18 +254,40 @@ func (g *Gen) Switch(depth, parent int) (Tree, Tree, bool) {
 	if g.R.IntN(3) > 0 && cnt > 2 {
 		cnt = 1 + g.R.IntN(2)
 	}
+	keys := make([]string, 0, cnt)
+	for _, vi := range perm[:cnt] {
+		keys = append(keys, Spell(g.R, names[vi]))
+	}
+	// the map is a switch of the FIRST registered dimension under which every key parses: when two
+	// registered dimensions share value names that need not be the one the keys were drawn from
+	eff := enum
+	for _, d := range g.Regs {
+		all := true
+		for _, k := range keys {
+			if _, ok := Enums[d.Enum-1].Parse(k); !ok {
+				all = false
+			}
+		}
+		if all {
+			eff = d.Enum
+			break
+		}
+	}
+	if eff == parent && !g.OOD {
+		return g.Plain(depth) // would nest a dimension directly under itself
+	}
 	var dm []Entry
 	var exp Tree
 	found, ok := false, false
-	for _, vi := range perm[:cnt] {
-		d, e, o := g.Node(depth-1, enum)
-		dm = append(dm, Entry{K: Spell(g.R, names[vi]), V: d})
-		if vi == g.Sel[enum] {
+	for _, k := range keys {
+		d, e, o := g.Node(depth-1, eff)
+		dm = append(dm, Entry{K: k, V: d})
+		if v, _ := Enums[eff-1].Parse(k); v == g.Sel[eff] {
 			exp, ok, found = e, o, true
 		}
 	}
 	if g.R.IntN(100) < 60 {
-		d, e, o := g.Node(depth-1, enum)
+		d, e, o := g.Node(depth-1, eff)
 		dm = append(dm, Entry{K: "default", V: d})
 		if !found {
 			exp, ok, found = e, o, true
@@ -229,6 +305,21 @@ func (g *Gen) Setup() map[string]string {
 	env := map[string]string{}
 	order := g.R.Perm(3)
 	n := 1 + g.R.IntN(3)
+	if g.R.IntN(5) == 0 {
+		// the two dimensions that share value names, in either order, possibly with a third one
+		// anywhere among them
+		pair := []int{3, 4}
+		if g.R.IntN(2) == 0 {
+			pair = []int{4, 3}
+		}
+		order, n = pair, 2
+		if g.R.IntN(3) == 0 {
+			third := g.R.IntN(3)
+			at := g.R.IntN(3)
+			order = append(append(append([]int{}, pair[:min(at, 2)]...), third), pair[min(at, 2):]...)
+			n = 3
+		}
+	}
 	g.Regs, g.Sel = nil, map[int]int{}
 	for _, e := range order[:n] {
 		enum := e + 1
@@ -286,10 +377,17 @@ func (g *Gen) Setup() map[string]string {
 
 // Document draws a whole document: a plain map at the top (sometimes a switch over maps).
 func (g *Gen) Document() (doc, exp Tree, ok bool) {
+	if g.R.IntN(20) == 0 && len(g.Regs) > 0 { // a very deep document
+		d, e, o := g.Node(2, 0)
+		return g.Spine(d, e, o)
+	}
 	depth := 2 + g.R.IntN(5)
 	if g.R.IntN(12) == 0 {
 		for {
 			doc, exp, ok = g.Switch(depth, 0)
+			if doc.T != "m" {
+				continue
+			}
 			if !ok || exp.T == "m" {
 				return doc, exp, ok
 			}
